@@ -1,2 +1,31 @@
-import check_core
-check_core.main("C13")
+"""C13: the core-model part (duplicates, illegal/too deep names refused at the edit, unique names in
+every projection) plus the name probes (character-class identifiers x level x kind enumerated by TLC,
+offered to the real add_fp/add_directory, judged by TLC against NameRules)."""
+import sys
+
+import det
+det.install()
+import checklib      # noqa: E402
+import check_core    # noqa: E402
+
+
+def run(ctx):
+    check_core.run_for('C13')(ctx)
+    import check_C18
+    items, fails, stats = check_C18.probe_names(ctx, ctx.tier, ctx.seed)
+    ctx.coverage['name_probes'] = {k: v for k, v in stats.items() if k != 'classes'}
+    ctx.coverage['name_probe_classes'] = stats.get('classes', {})
+    ctx.coverage['traces_validated_against_impl'] = ctx.coverage.get('traces_validated_against_impl', 0) + len(items)
+    st = stats.get('tlc_enumeration', {})
+    if isinstance(st, dict):
+        ctx.coverage['states'] = ctx.coverage.get('states', 0) + int(st.get('distinct', st.get('states', 0)) or 0)
+        ctx.coverage['transitions'] = ctx.coverage.get('transitions', 0) + int(st.get('generated', st.get('transitions', 0)) or 0)
+    for f in fails:
+        sig = dict(f['sig'], property='C13')
+        ctx.violation(sig, f['detail'], f['replay'])
+    if items:
+        ctx.sample({'name_probe': {k: items[0].get(k) for k in list(items[0])[:8]}})
+
+
+if __name__ == '__main__':
+    sys.exit(checklib.main('C13', 'model_checking', run))
